@@ -128,9 +128,12 @@ def saturate(ip, rounds: int = 2) -> None:
         for k in list(s.idx):
             for arr, n, elem, origin in list(s.arrays.values()):
                 if _once(ip, f"at:{arr}:{k}"):
+                    from pyvc.interp import RaiseEx
                     p.guards.append(z3.And(k >= 0, k < n))
                     try:
                         p.assume(z3.Select(arr, k) == elem(k))
+                    except RaiseEx:
+                        pass        # k is known to lie outside the range on this path: the guarded fact would be vacuous
                     finally:
                         p.guards.pop()
         for i in list(s.loop_idx):
@@ -467,3 +470,52 @@ def scatter_assign_hook(ip, arr, idx, val, node=None):
     s.pointwise.append(pw)
     arr.arr = new
     return None
+
+
+def prefix_forall(ip, name: str, args: list, bound, pred_fn):
+    """P(args, bound) := forall 0 <= k < bound . pred(k), for state that changes between uses (a mutable array among `args`):
+    every use gets its own introduction instance (Skolem witness) and its elimination instances at the index terms in use, so
+    the fact can be carried across an update of the state without a frame axiom for the fold."""
+    s = seqs(ip)
+    p = ip.path
+    bt = bound if not isinstance(bound, int) else z3.IntVal(bound)
+    sorts = [a.sort() for a in args] + [I, B]
+    P = fn(name, *sorts)
+    pt = P(*args, bt)
+    key = f"pforall:{name}:{[str(a) for a in args]}:{bt}"
+    if key not in s.done:
+        s.done.add(key)
+        from pyvc.interp import RaiseEx
+        sk = skolem(ip, "sk_" + name, bt)
+        p.assume(z3.Implies(bt <= 0, pt))                                    # empty range
+        if p.check_sat(bt > 0) != "unsat":
+            nonempty = p.entails(bt > 0)
+            if not nonempty:
+                p.guards.append(z3.And(sk >= 0, sk < bt))
+            try:
+                ps = pred_fn(sk)
+                p.assume(z3.Or(pt, z3.And(sk >= 0, sk < bt, z3.Not(ps))))   # lean: forall_prefix_intro
+            except RaiseEx:
+                pass
+            finally:
+                if not nonempty:
+                    p.guards.pop()
+
+        def pw(k):
+            if _once(ip, f"{key}:elim:{k}"):
+                inr = z3.And(k >= 0, k < bt)
+                if p.check_sat(inr) == "unsat":
+                    return          # k known to lie outside [0, bound): the instance would be vacuous
+                guarded = not p.entails(inr)
+                if guarded:
+                    p.guards.append(inr)
+                try:
+                    pk = pred_fn(k)
+                except RaiseEx:
+                    return
+                finally:
+                    if guarded:
+                        p.guards.pop()
+                p.assume(z3.Implies(z3.And(inr, pt), pk))          # lean: forall_prefix_elim
+        s.pointwise.append(pw)
+    return pt
